@@ -200,8 +200,15 @@ class TokenManager(interfaces.RequestInterface, interfaces.TokenManager):
         # Still, it would be an option not to send an is_last here and *always*
         # have the higher-level code indicate loss of interest in that exchange
         # when it detects that no more observations will follow.
+        #
+        # Only successful responses are notifications (RFC 7641 Section 4.2:
+        # non-2.xx responses do not include an Observe option). An error
+        # response ends the observation also when a server sets the option on
+        # it anyway.
         final = not (
-            request.request.opt.observe == 0 and response.opt.observe is not None
+            request.request.opt.observe == 0
+            and response.opt.observe is not None
+            and response.code.is_successful()
         )
 
         if final:
